@@ -28,6 +28,7 @@ type Ctx struct {
 	SSAPkg    map[string]*ssa.Package
 	Funcs     []*ssa.Function // every function of the module (incl. anonymous, instantiations)
 	opCache   map[*ssa.Function][]*ssa.Function
+	implCache map[string][]*ssa.Function
 	FuncByKey map[string]*ssa.Function // "actions.(*AckDeliveries).Execute", "actions.notifyPublish$1$1"
 	Overlay   map[string][]byte
 	Controls  map[string]bool // overlay files holding positive controls
